@@ -36,6 +36,9 @@ type PtrV struct {
 	Obj  *Obj
 	Path []PathElem
 	Elem types.Type
+	// address of byte ViewIdx of a byte view (read-only)
+	ViewOf  *SliceV
+	ViewIdx *Term
 }
 
 type SliceV struct {
